@@ -24,10 +24,18 @@ func init() {
 		"fmt.Sprintf":  libSprintf,
 		"fmt.Errorf":   libErrorf,
 		"fmt.Sprint":   libSprint,
-		"fmt.Fprintf":  func(i *interpreter, fr *frame, a []value) (value, bool) { return tuple{0, iface{}}, true },
+		"fmt.Fprintf": func(i *interpreter, fr *frame, a []value) (value, bool) {
+			f := fmtString(i, a[1])
+			return libFwrite(i, fr, a[0], fmt.Sprintf(f, fmtArgsFor(i, f, a[2])...)), true
+		},
 		"fmt.Printf":   libPrintf,
 		"fmt.Println":  func(i *interpreter, fr *frame, a []value) (value, bool) { return tuple{0, iface{}}, true },
-		"fmt.Fprintln": func(i *interpreter, fr *frame, a []value) (value, bool) { return tuple{0, iface{}}, true },
+		"fmt.Fprintln": func(i *interpreter, fr *frame, a []value) (value, bool) {
+			return libFwrite(i, fr, a[0], fmt.Sprintln(fmtArgs(i, a[1])...)), true
+		},
+		"fmt.Fprint": func(i *interpreter, fr *frame, a []value) (value, bool) {
+			return libFwrite(i, fr, a[0], fmt.Sprint(fmtArgs(i, a[1])...)), true
+		},
 		"runtime.Stack": func(i *interpreter, fr *frame, a []value) (value, bool) { return 0, true },
 		"github.com/GuanceCloud/platypus/internal/logger.NewStdoutLogger": func(i *interpreter, fr *frame, a []value) (value, bool) {
 			return iface{}, true
@@ -321,6 +329,24 @@ func fmtString(i *interpreter, v value) string {
 func libSprintf(i *interpreter, fr *frame, a []value) (value, bool) {
 	f := fmtString(i, a[0])
 	return fmt.Sprintf(f, fmtArgsFor(i, f, a[1])...), true
+}
+
+// libFwrite writes formatted text into the target's io.Writer through its own Write method;
+// writes to *os.File (standard output / error) are dropped.
+func libFwrite(i *interpreter, fr *frame, wv value, text string) value {
+	w, ok := wv.(iface)
+	if !ok || w.t == nil {
+		panic(symRuntimeError("invalid memory address or nil pointer dereference"))
+	}
+	if w.t.String() == "*os.File" {
+		return tuple{len(text), iface{}}
+	}
+	m := i.prog.LookupMethod(w.t, nil, "Write")
+	if m == nil {
+		panic(pathAbort{"unsupported: fmt.Fprint* on a writer without Write: " + w.t.String()})
+	}
+	callSSA(i, fr, token.NoPos, m, []value{w.v, bytesToValues([]byte(text))}, nil)
+	return tuple{len(text), iface{}}
 }
 
 func libSprint(i *interpreter, fr *frame, a []value) (value, bool) {
